@@ -9,3 +9,4 @@ open Model.SlicesGen
 #print axioms admission_eq
 #print axioms fromEntry_eq
 #print axioms fromEntryLength_eq
+#print axioms fromJSON_eq
